@@ -8,12 +8,13 @@ Property theorems only.  Models: `Model/GetElems` (`_getElems`), `Model/Typ` (`C
 
 * (a) `getElems_flatten`  — holds (all nestings).
 * (b) `insert_orders_same_list` — holds (pure list lemma: every insertion order ends in the same sequence).
-* (c) `link_confluent` — REFUTED on the unchanged code, already within one node (the links are computed BEFORE the
-  adjective re-ordering of `Phrase.add`, so they are not a function of the resulting child sequence);
-  `link_confluent_levels` — REFUTED (only the node that receives `add` is re-linked, never its ancestors:
-  “The cats sleeps.”).  `link_confluent_partial` / `link_confluent_levels_partial`: for EVERY history, if every
-  location written by an earlier link run is written again by the final run(s), and the final run(s) perform the same
-  constant writes in the state reached as in the base state, the link state is that of the final run(s) alone.
+* (c) `link_confluent` — REFUTED, already within one node (the links are computed BEFORE the adjective re-ordering of
+  `Phrase.add`, so they are not a function of the resulting child sequence); `link_confluent_levels` — REFUTED also
+  after the repair 54ff0b6 (ancestors are re-linked after `add`): a link written by an earlier run on a node that the
+  final runs no longer write survives (`S(N, VP(V1))` then `VP.add(V2, 0)`: `V1` stays linked to the subject).
+  `link_confluent_partial` / `link_confluent_levels_partial`: for EVERY history, if every location written by an
+  earlier link run is written again by the final runs (the receiver and then its ancestors), and these perform the same
+  constant writes in the state reached as in the base state, the link state is that of the final runs alone.
 * (d) `typ_*` — hold, for all lists of dicts. -/
 namespace Pyrealb.C11
 open Pyrealb Pyrealb.GetElems Pyrealb.Typ Pyrealb.Heap
@@ -208,18 +209,18 @@ def link_confluent : Prop :=
     (p : Nat), mkPhrase h0 k lang args = .ok (hm, p) → addAll hm p steps = .ok h →
     ∀ (h1 : Heap) (p1 : Nat), mkPhrase h0 k lang (items (h.kids p)) = .ok (h1, p1) → linkState h = linkState h1
 
-/-- **C11.c** (across levels) attaching `p` to a parent before / after `p` has received its last child gives the same
-    link state -/
+/-- **C11.c** (across levels) attaching `p` to a parent before / after `p` has received its last child (at any position)
+    gives the same link state -/
 def link_confluent_levels : Prop :=
-  ∀ (h0 : Heap) (k1 k2 : Kind) (lang : Lang) (kids1 : List Nat) (c : Nat) (before after : List Nat)
-    (ha1 ha hb1 hb2 hb : Heap) (p q p' q' : Nat),
+  ∀ (h0 : Heap) (k1 k2 : Kind) (lang : Lang) (kids1 kidsFinal : List Nat) (c : Nat) (pos : Option Int)
+    (before after : List Nat) (ha1 ha hb1 hb2 hb : Heap) (p q p' q' : Nat),
     -- bottom-up: p complete, then the parent
-    mkPhrase h0 k1 lang (items (kids1 ++ [c])) = .ok (ha1, p) →
+    mkPhrase h0 k1 lang (items kidsFinal) = .ok (ha1, p) →
     mkPhrase ha1 k2 lang (items (before ++ [p] ++ after)) = .ok (ha, q) →
     -- top-down: p without its last child, the parent, then the child is added to p
     mkPhrase h0 k1 lang (items kids1) = .ok (hb1, p') →
     mkPhrase hb1 k2 lang (items (before ++ [p'] ++ after)) = .ok (hb2, q') →
-    phraseAdd1 hb2 p' c none = .ok hb →
+    phraseAdd1 hb2 p' c pos = .ok hb → hb.kids p' = kidsFinal →
     linkState ha = linkState hb
 
 /-! ### refutations (concrete witnesses, replayed on the real code by the harness) -/
@@ -264,34 +265,35 @@ theorem link_confluent_refuted : ¬ link_confluent := by
   revert this
   decide
 
-/-- `D("the")`, `V("sleep")`, `N("cat").n("p")`, `VP(V)` : handles 0,1,2,3 -/
+/-- `N("cat").n("p")`, `V("sleep")`, `V("eat")` : handles 0,1,2 -/
 def w2_base : Heap :=
-  let h := (mkTerminal (mkTerminal (mkTerminal {} (tspec .D "the")).1 (tspec .V "sleep")).1 (tspec .N "cat" "p")).1
-  (R.get (default, 0) (mkPhrase h .VP .en (items [1]))).1
+  (mkTerminal (mkTerminal (mkTerminal {} (tspec .N "cat" "p")).1 (tspec .V "sleep")).1 (tspec .V "eat")).1
 
-def w2_a1 : Heap × Nat := R.get (default, 0) (mkPhrase w2_base .NP .en (items ([0] ++ [2])))
-def w2_a2 : Heap × Nat := R.get (default, 0) (mkPhrase w2_a1.1 .S .en (items ([] ++ [4] ++ [3])))
-def w2_b1 : Heap × Nat := R.get (default, 0) (mkPhrase w2_base .NP .en (items [0]))
-def w2_b2 : Heap × Nat := R.get (default, 0) (mkPhrase w2_b1.1 .S .en (items ([] ++ [4] ++ [3])))
-def w2_b3 : Heap := R.get default (phraseAdd1 w2_b2.1 4 2 none)
+def w2_a1 : Heap × Nat := R.get (default, 0) (mkPhrase w2_base .VP .en (items [2, 1]))
+def w2_a2 : Heap × Nat := R.get (default, 0) (mkPhrase w2_a1.1 .S .en (items ([0] ++ [3] ++ [])))
+def w2_b1 : Heap × Nat := R.get (default, 0) (mkPhrase w2_base .VP .en (items [1]))
+def w2_b2 : Heap × Nat := R.get (default, 0) (mkPhrase w2_b1.1 .S .en (items ([0] ++ [3] ++ [])))
+def w2_b3 : Heap := R.get default (phraseAdd1 w2_b2.1 3 2 (some 0))
 
-/-- Witness across levels: `np=NP(D("the")); s=S(np,VP(V("sleep"))); np.add(N("cat").n("p"))` — the verb keeps
-    pointing to the record of the determiner (“The cats sleeps.”); bottom-up it shares the noun's record. -/
+/-- Witness across levels (repaired code): `vp=VP(V("sleep")); s=S(N("cat").n("p"),vp); vp.add(V("eat"),0)` — the
+    ancestors ARE re-linked, `eat` becomes the verb of the sentence, but `sleep` keeps the subject's record that the
+    first run of S gave it; bottom-up (`VP(V("eat"),V("sleep"))`) it keeps its own: “Cats eat sleep.” / “… sleeps.” -/
 theorem link_confluent_levels_refuted : ¬ link_confluent_levels := by
   intro H
-  have a1 : mkPhrase w2_base .NP .en (items ([0] ++ [2])) = .ok w2_a1 := R.eq_ok _ _ (by decide)
-  have pa : w2_a1.2 = 4 := by decide
-  have a2 : mkPhrase w2_a1.1 .S .en (items ([] ++ [4] ++ [3])) = .ok w2_a2 := R.eq_ok _ _ (by decide)
-  have b1 : mkPhrase w2_base .NP .en (items [0]) = .ok w2_b1 := R.eq_ok _ _ (by decide)
-  have pb : w2_b1.2 = 4 := by decide
-  have b2 : mkPhrase w2_b1.1 .S .en (items ([] ++ [4] ++ [3])) = .ok w2_b2 := R.eq_ok _ _ (by decide)
-  have b3 : phraseAdd1 w2_b2.1 4 2 none = .ok w2_b3 := R.eq_ok _ _ (by decide)
-  have a1' : mkPhrase w2_base .NP .en (items ([0] ++ [2])) = .ok (w2_a1.1, 4) :=
+  have a1 : mkPhrase w2_base .VP .en (items [2, 1]) = .ok w2_a1 := R.eq_ok _ _ (by decide)
+  have pa : w2_a1.2 = 3 := by decide
+  have a2 : mkPhrase w2_a1.1 .S .en (items ([0] ++ [3] ++ [])) = .ok w2_a2 := R.eq_ok _ _ (by decide)
+  have b1 : mkPhrase w2_base .VP .en (items [1]) = .ok w2_b1 := R.eq_ok _ _ (by decide)
+  have pb : w2_b1.2 = 3 := by decide
+  have b2 : mkPhrase w2_b1.1 .S .en (items ([0] ++ [3] ++ [])) = .ok w2_b2 := R.eq_ok _ _ (by decide)
+  have b3 : phraseAdd1 w2_b2.1 3 2 (some 0) = .ok w2_b3 := R.eq_ok _ _ (by decide)
+  have hk : w2_b3.kids 3 = [2, 1] := by decide
+  have a1' : mkPhrase w2_base .VP .en (items [2, 1]) = .ok (w2_a1.1, 3) :=
     a1.trans (congrArg R.ok (Prod.ext rfl pa))
-  have b1' : mkPhrase w2_base .NP .en (items [0]) = .ok (w2_b1.1, 4) :=
+  have b1' : mkPhrase w2_base .VP .en (items [1]) = .ok (w2_b1.1, 3) :=
     b1.trans (congrArg R.ok (Prod.ext rfl pb))
-  have key := H w2_base .NP .S .en [0] 2 [] [3] w2_a1.1 w2_a2.1 w2_b1.1 w2_b2.1 w2_b3 4 w2_a2.2 4 w2_b2.2
-    a1' a2 b1' b2 b3
+  have key := H w2_base .VP .S .en [1] [2, 1] 2 (some 0) [0] [] w2_a1.1 w2_a2.1 w2_b1.1 w2_b2.1 w2_b3 3 w2_a2.2 3 w2_b2.2
+    a1' a2 b1' b2 b3 hk
   have := congrArg (fun q => q.peng 1) key
   revert this
   decide
@@ -312,40 +314,8 @@ theorem addAll_trace (h : Heap) (p : Nat) (steps : List (Nat × Option Int)) (h'
     | ok h1 =>
       rw [h1r] at hr
       obtain ⟨Ps, tr⟩ := ih h1 hr
-      cases hp : plan (preLink h p e pos) p with
-      | none =>
-        have : phraseAdd1 h p e pos = .outside := by
-          unfold phraseAdd1 linkR
-          have hp' : plan (addElement (setParent h e (some p)) p e pos) p = none := hp
-          rw [hp']
-        rw [this] at h1r; cases h1r
-      | some P => exact ⟨P :: Ps, Trace.cons hp h1r tr⟩
-
-/-- **C11.c partial** (one node, every history).  `hinit`/`hinit'` are the stores in which the first link run of the
-    history / of the one-shot construction takes place (same pointer part: nothing has been linked yet).  If
-    * the history's link runs are `Ps` followed by a last run `P`, the one-shot construction runs the same plan `P`,
-    * every location written by the earlier runs (`W`) is written again by `P` (`cover`),
-    * `P` performs the same constant writes in the state the history reached as in the base state (`stable`),
-    then the history ends in the link state of the one-shot construction. -/
-theorem link_confluent_partial (hinit hinit' : Heap) (p p' : Nat) (steps : List (Nat × Option Int))
-    (Ps : List (List Act)) (P : List Act) (h : Heap) (e' : Nat) (pos' : Option Int) (h1 : Heap)
-    (base : hinit.ptr = hinit'.ptr)
-    (tr : Trace p hinit steps (Ps ++ [P]) h) (one : Trace p' hinit' [(e', pos')] [P] h1)
-    (pure : ∀ Q ∈ Ps ++ [P], PurePlan Q)
-    (W ws : List Wr) (hW : runW hinit.ptr Ps = some W) (hc : compile hinit.ptr {} P = some (ws, none))
-    (stable : compile (applyW hinit.ptr W) {} P = some (ws, none)) (cover : ∀ l ∈ locs W, l ∈ locs ws) :
-    linkState h = linkState h1 := by
-  have t1 := trace_ptr tr pure
-  have t2 := trace_ptr one (fun Q hQ => pure Q (by simp at hQ; simp [hQ]))
-  rw [runs_absorbed _ Ps P W ws hW hc stable cover] at t1
-  simp only [runPlans] at t2
-  rw [← base] at t2
-  cases hx : execP hinit.ptr P with
-  | error c => rw [hx] at t1; cases t1
-  | ok q =>
-    rw [hx] at t1 t2
-    simp only [Except.ok.injEq] at t1 t2
-    simp only [linkState, ← t1, ← t2]
+      obtain ⟨P, Qs, hl, hu, hp, hlk, u, rfl⟩ := phraseAdd1_trace h p e pos h1 h1r
+      exact ⟨P :: Qs ++ Ps, Trace.cons hp hlk u tr⟩
 
 /-- absorption with several final runs (the re-linked node and then its ancestors) -/
 theorem runs_absorbed_many (q : Ptr) (Ps Qs : List (List Act)) (W V : List Wr)
@@ -355,11 +325,35 @@ theorem runs_absorbed_many (q : Ptr) (Ps Qs : List (List Act)) (W V : List Wr)
   simp only
   rw [runW_sound _ Qs V stable, runW_sound q Qs V hV, applyW_absorb q W V cover]
 
+/-- **C11.c partial** (every history of insertions into one node, attached or not).  `hinit`/`hinit'` are the stores in
+    which the first link run of the history / of the one-shot construction takes place (same pointer part).  If
+    * the history's link runs are `Ps` followed by the runs `Qs` of its LAST insertion (the receiver, then each of its
+      ancestors), and the one-shot construction performs the same runs `Qs`,
+    * every location written by the earlier runs (`W`) is written again by `Qs` (`cover`),
+    * `Qs` perform the same constant writes `V` in the state the history reached as in the base state (`stable`),
+    then the history ends in the link state of the one-shot construction. -/
+theorem link_confluent_partial (hinit hinit' : Heap) (p p' : Nat) (steps : List (Nat × Option Int))
+    (Ps Qs : List (List Act)) (h : Heap) (e' : Nat) (pos' : Option Int) (h1 : Heap)
+    (base : hinit.ptr = hinit'.ptr)
+    (tr : Trace p hinit steps (Ps ++ Qs) h) (one : Trace p' hinit' [(e', pos')] Qs h1)
+    (pure : ∀ Q ∈ Ps ++ Qs, PurePlan Q)
+    (W V : List Wr) (hW : runW hinit.ptr Ps = some W) (hV : runW hinit.ptr Qs = some V)
+    (stable : runW (applyW hinit.ptr W) Qs = some V) (cover : ∀ l ∈ locs W, l ∈ locs V) :
+    linkState h = linkState h1 := by
+  have t1 := trace_ptr tr pure
+  have t2 := trace_ptr one (fun Q hQ => pure Q (by simp [hQ]))
+  rw [runs_absorbed_many _ Ps Qs W V hW hV stable cover] at t1
+  rw [← base] at t2
+  rw [t1] at t2
+  simp only [Except.ok.injEq] at t2
+  exact t2
+
 /-- **C11.c partial** (across levels, on the pointer part).  A history whose link runs are `Ps` (nodes linked while
     still incomplete, ancestors linked before their descendants were complete …) and which ENDS by re-linking, bottom-up,
     the nodes `Qs` (the receiver of the last `add` and then every ancestor) reaches the link state of running `Qs` alone
     — i.e. of bottom-up construction — as soon as the final runs cover what the earlier ones wrote and are stable.
-    The unchanged code never performs the ancestor runs: that is `link_confluent_levels_refuted`. -/
+    Since 54ff0b6 the code performs the ancestor runs after every `add`; `link_confluent_levels_refuted` is a history in
+    which `cover` fails (a node linked by an earlier run is no longer written by the final ones). -/
 theorem link_confluent_levels_partial (q : Ptr) (Ps Qs : List (List Act)) (W V : List Wr)
     (hW : runW q Ps = some W) (hV : runW q Qs = some V) (stable : runW (applyW q W) Qs = some V)
     (cover : ∀ l ∈ locs W, l ∈ locs V) : runPlans q (Ps ++ Qs) = runPlans q Qs :=
@@ -570,41 +564,53 @@ def preMk (h : Heap) (k : Kind) (lang : Lang) (kids : List Nat) : Heap :=
 
 def nv_h0 : Heap := (mkTerminal (mkTerminal {} (tspec .D "the")).1 (tspec .N "cat" "p")).1
 def nv_init : Heap := preMk nv_h0 .NP .en [0]
-def nv_a : Heap := R.get default (phraseAdd1 nv_init 2 0 none)
-def nv_b : Heap := R.get default (phraseAdd1 nv_a 2 1 none)
+def nv_l0 : Heap := R.get default (linkR (preLink nv_init 2 0 none) 2)
+def nv_a : Heap := reorder nv_l0 2
+def nv_l1 : Heap := R.get default (linkR (preLink nv_a 2 1 none) 2)
+def nv_b : Heap := reorder nv_l1 2
 def nv_init' : Heap := preMk nv_h0 .NP .en [0, 1]
-def nv_one : Heap := R.get default (phraseAdd1 nv_init' 2 1 none)
+def nv_l1' : Heap := R.get default (linkR (preLink nv_init' 2 1 none) 2)
+def nv_one : Heap := reorder nv_l1' 2
 def nv_P0 : List Act := (plan (preLink nv_init 2 0 none) 2).getD []
 def nv_P : List Act := (plan (preLink nv_a 2 1 none) 2).getD []
 
 /-- non-vacuity of `link_confluent_partial`: `NP(D("the")).add(N("cat").n("p"))` against `NP(D("the"),N("cat").n("p"))`:
     the first run links NP and D to the record of D, the final run re-points both to the record of the noun -/
 example : linkState nv_b = linkState nv_one :=
-  link_confluent_partial nv_init nv_init' 2 2 [(0, none), (1, none)] [nv_P0] nv_P nv_b 1 none nv_one rfl
-    (Trace.cons (by decide) (R.eq_ok _ _ (by decide))
-      (Trace.cons (by decide) (R.eq_ok _ _ (by decide)) (Trace.nil _)))
-    (Trace.cons (by decide) (R.eq_ok _ _ (by decide)) (Trace.nil _))
-    (by decide) ((runW nv_init.ptr [nv_P0]).getD []) (((compile nv_init.ptr {} nv_P).getD ([], none)).1)
+  link_confluent_partial nv_init nv_init' 2 2 [(0, none), (1, none)] [nv_P0] [nv_P] nv_b 1 none nv_one rfl
+    (Trace.cons (Qs := []) (by decide) (R.eq_ok default _ (by decide)) (UpRuns.top (by decide))
+      (Trace.cons (Qs := []) (Ps := []) (by decide) (R.eq_ok default _ (by decide)) (UpRuns.top (by decide))
+        (Trace.nil _)))
+    (Trace.cons (Qs := []) (Ps := []) (by decide) (R.eq_ok default _ (by decide)) (UpRuns.top (by decide)) (Trace.nil _))
+    (by decide) ((runW nv_init.ptr [nv_P0]).getD []) ((runW nv_init.ptr [nv_P]).getD [])
     (by decide) (by decide) (by decide) (by decide)
 
 /-- … and the two link states are not trivial: the determiner ends up sharing the noun's record -/
 example : nv_b.peng 0 = nv_b.peng 1 ∧ nv_a.peng 0 ≠ nv_b.peng 0 := by decide
 
--- the scenario of `link_confluent_levels_refuted`, followed by a re-link of the ancestor S
-def lv_q : Ptr := w2_base.ptr
-def lv_P1 : List Act := (plan (preLink (preMk w2_base .NP .en [0]) 4 0 none) 4).getD []
-def lv_S1 : List Act := (plan (preLink (preMk w2_b1.1 .S .en [4, 3]) 5 3 none) 5).getD []
-def lv_P2 : List Act := (plan (preLink w2_b2.1 4 2 none) 4).getD []
-def lv_S2 : List Act := (plan w2_b3 5).getD []
+-- top-down assembly of “the cats sleep”: np=NP(D("the")); s=S(np,VP(V("sleep"))); np.add(N("cat").n("p"))
+def lv_base : Heap :=
+  let h := (mkTerminal (mkTerminal (mkTerminal {} (tspec .D "the")).1 (tspec .V "sleep")).1 (tspec .N "cat" "p")).1
+  (R.get (default, 0) (mkPhrase h .VP .en (items [1]))).1
+def lv_b1 : Heap × Nat := R.get (default, 0) (mkPhrase lv_base .NP .en (items [0]))
+def lv_b2 : Heap × Nat := R.get (default, 0) (mkPhrase lv_b1.1 .S .en (items [4, 3]))
+def lv_b3 : Heap := R.get default (phraseAdd1 lv_b2.1 4 2 none)
+def lv_q : Ptr := lv_base.ptr
+def lv_P1 : List Act := (plan (preLink (preMk lv_base .NP .en [0]) 4 0 none) 4).getD []
+def lv_S1 : List Act := (plan (preLink (preMk lv_b1.1 .S .en [4, 3]) 5 3 none) 5).getD []
+def lv_P2 : List Act := (plan (preLink lv_b2.1 4 2 none) 4).getD []
+def lv_S2 : List Act := (plan lv_b3 5).getD []
 
-/-- non-vacuity of `link_confluent_levels_partial`: top-down assembly of “the cats sleep” FOLLOWED by re-linking NP and
-    then S reaches the state of the two final runs alone -/
+/-- non-vacuity of `link_confluent_levels_partial`: the link runs of that top-down assembly (NP, S, then NP and its
+    ancestor S again after the `add`) reach the state of the two final runs alone -/
 example : runPlans lv_q ([lv_P1, lv_S1] ++ [lv_P2, lv_S2]) = runPlans lv_q [lv_P2, lv_S2] :=
   link_confluent_levels_partial lv_q [lv_P1, lv_S1] [lv_P2, lv_S2]
     ((runW lv_q [lv_P1, lv_S1]).getD []) ((runW lv_q [lv_P2, lv_S2]).getD [])
     (by decide) (by decide) (by decide) (by decide)
 
-/-- … after which the verb shares the record of the noun (handle 2), as in bottom-up construction -/
+/-- … after which the verb shares the record of the noun (handle 2), as in bottom-up construction — and this is what the
+    repaired `add` computes (“The cats sleep.”) -/
 example : (match runPlans lv_q [lv_P2, lv_S2] with | .ok q => q.peng 1 == q.peng 2 | _ => false) = true := by decide
+example : lv_b3.peng 1 = lv_b3.peng 2 := by decide
 
 end Pyrealb.C11
